@@ -24,8 +24,9 @@ import ast
 import itertools
 
 from ..absint import Evaluator, Interp, TOP, fin, boolean, sym, Unsupported
-from ..astutil import text, access_path, func_params, range_bounds, fold
+from ..astutil import text, access_path, func_params, range_bounds, fold, stmts_of, calls_in
 from ..loader import where, AnalysisError
+from ..terms import Terms
 
 MARKERS = [0, 1, -1, 2, -2]
 
@@ -364,7 +365,39 @@ def analyse(ctx, repo, clsname, eps_mode):
                     unsure = unsure or rec
                 else:
                     unsure = unsure or rec
+    # zip() stops at its shortest argument: zipping the objective slices with a list whose length does not depend on the
+    # number of objectives (the epsilon list as it is) silently drops the trailing objectives
+    TZ = Terms(fn)
+    for st_ in stmts_of(fn):
+        hdr = [st_.iter] if isinstance(st_, ast.For) else ([st_] if not isinstance(st_, (ast.While, ast.If, ast.Try, ast.With)) else [])
+        for h_ in hdr:
+            for zc in [c_ for c_ in calls_in(h_) if access_path(c_.func) == "zip" and len(c_.args) >= 3]:
+                if not any(is_obj_slice(a_, client.p) is True or is_obj_slice(a_, client.q) is True for a_ in zc.args):
+                    continue
+                for a_ in zc.args:
+                    if is_obj_slice(a_, client.p) is True or is_obj_slice(a_, client.q) is True:
+                        continue
+                    ax = TZ.expand(a_, at=st_)
+                    alts = [ax]
+                    leaves = []
+                    while alts:
+                        x_ = alts.pop()
+                        if isinstance(x_, ast.IfExp):
+                            alts += [x_.body, x_.orelse]
+                        else:
+                            leaves.append(x_)
+                    for lf in leaves:
+                        lp_ = access_path(lf) or ""
+                        if lp_.startswith(client.selfn + ".") or (isinstance(lf, ast.Name) and TZ.origin(lf.id, st_) is not None
+                                                                   and (access_path(TZ.origin(lf.id, st_)) or "").startswith(client.selfn + ".")):
+                            dom_seen[("violated", st_.lineno, "zip")] = st_
+                            dom_seen[("violated", st_.lineno, "the objectives are zipped with %s, a list whose length is independent of the number of objectives: zip stops at the "
+                                      "shorter argument, so with fewer entries than objectives the trailing objectives are never compared" % text(lf))] = st_
+                            dom_seen.pop(("violated", st_.lineno, "zip"), None)
     if unsupported:
+        for (k, ln, msg), node in dom_seen.items():
+            if k == "violated":
+                ctx.violated("R1", C, where(mod, node), msg, key="domain")
         ctx.inconclusive("R2" if not eps_mode else "R4", C, where(mod, fn), "outside the analysable fragment: %s" % unsupported, key="automaton")
         return
     for (k, ln, msg), node in dom_seen.items():
